@@ -300,7 +300,7 @@ func main() {
 		case len(sh.Ctx) <= 1 && sh.Base == "val":
 			deep = []int{1000}
 			twinDeep = 150
-			modelDeep = sh.Pre == "none" || len(sh.Ctx) == 0
+			modelDeep = sh.Pre == "none" || (len(sh.Ctx) == 0 && (sh.Pre == "def" || sh.Pre == "trace" || sh.Pre == "varargs" || sh.Pre == "varargs0"))
 		case thorough || i%5 == 0:
 			deep = []int{1000}
 			twinDeep = 150
